@@ -60,6 +60,19 @@ def gen(ctx):
         add("env 1.2 2 pub %s" % hexs(r.bytes(size)), "env:size%s" % sizeclass(size))
         add("enc 0 %s" % hexs(r.bytes(size)), "enc:size%s" % sizeclass(size))
         add("enc 1 %s" % hexs(r.bytes(size)), "enc:wrongkey:size%s" % sizeclass(size))
+    # the same call frame opens for a recipient, then for an outsider (no key may survive from the first call)
+    for rs, mem, out in (("1", 1, 2), ("1.2", 2, 3), ("2.3.4", 3, 1), ("7.8", 7, 9), ("8.7", 7, 9)):
+        add("envseq %s %d %d %s" % (rs, mem, out, hexs(r.bytes(20))), "envseq:%drcpts" % len(rs.split(".")))
+        add("signenvseq %s %d %d %s" % (rs, mem, out, hexs(r.bytes(20))), "signenvseq:%drcpts" % len(rs.split(".")))
+    # content sizes that make some DER element of the message exactly 127/128, 255/256, 65535/65536 bytes long
+    for size in list(range(60, 140)) + list(range(200, 262)) + list(range(65470, 65545)):
+        cls = "~128" if size < 150 else ("~256" if size < 300 else "~65536")
+        body = r.bytes(size)
+        add("sign 1 data %s" % hexs(body), "sign:element-len:%s" % cls)
+        add("enc 0 %s" % hexs(body), "enc:element-len:%s" % cls)
+        if size < 300 or size % 2 == 0 or thorough:
+            add("env 1.2 2 pub %s" % hexs(body), "env:element-len:%s" % cls)
+            add("signenv 1 2 2 pub 1 %s" % hexs(body), "signenv:element-len:%s" % cls)
     # --- signed and enveloped
     for ss in ("1", "1.2", "2.1", "1.2.3", "-"):
         for rs in ("2", "2.3", "3.2", "2.3.4", "1.2.3.4", "-"):
@@ -150,7 +163,7 @@ def compare(ctx, cases, impl, model, variant):
                 continue
             kind = line.split()[1]
             bad = False
-            for region in ("content", "signature", "enckey"):
+            for region in ("content", "signature", "enckey", "signerid", "rcptid"):
                 if int(m.get(region, 0)):
                     bad = True
                     ctx.violation("tamper:%s:%s-bitflip-accepted" % (kind, region), "a single-bit change inside the %s of a %s message is accepted [%s]: %s" % (region, kind, variant, a),
